@@ -32,6 +32,9 @@ struct Job {
     logcalls: u8,
     #[serde(default)]
     spin: u32,
+    /// microseconds every next() of a by-value iterator source sleeps (free mode: widens turnstile races)
+    #[serde(default)]
+    sleep_us: u32,
     #[serde(default = "dflt_timeout")]
     timeout_ms: u64,
     #[serde(default = "one")]
@@ -83,7 +86,7 @@ fn prebuild(p: &Prog) -> (Prebuilt, Option<Vec<(u32, i32)>>) {
     }
 }
 
-fn run_prog(ctx: &Ctx, spin: u32, logcalls: bool, pre: Prebuilt) -> Out {
+fn run_prog(ctx: &Ctx, spin: u32, sleep_us: u32, logcalls: bool, pre: Prebuilt) -> Out {
     let p = &ctx.prog;
     let shape = p.shape();
     match pre {
@@ -98,8 +101,8 @@ fn run_prog(ctx: &Ctx, spin: u32, logcalls: bool, pre: Prebuilt) -> Out {
     }
     match p.src.as_str() {
         "vec" => shapes::run_vec(&shape, ctx, exec::items_of(p)),
-        "iter" => shapes::run_iter(&shape, ctx, exec::SrcIter::new(exec::items_of(p), true, spin, logcalls)),
-        "iterx" => shapes::run_iter(&shape, ctx, exec::SrcIter::new(exec::items_of(p), false, spin, logcalls)),
+        "iter" => shapes::run_iter(&shape, ctx, exec::SrcIter::new(exec::items_of(p), true, spin, logcalls, sleep_us)),
+        "iterx" => shapes::run_iter(&shape, ctx, exec::SrcIter::new(exec::items_of(p), false, spin, logcalls, sleep_us)),
         "slice" => {
             let items = exec::items_of(p);
             shapes::run_slice(&shape, ctx, &items[..])
@@ -262,7 +265,7 @@ fn cmd_run(inp: &str, outp: &str) {
 
         let ctx = Ctx::new(&job.p);
         let spin = job.spin;
-        let res = std::panic::catch_unwind(std::panic::AssertUnwindSafe(|| run_prog(&ctx, spin, job.logcalls != 0, pre)));
+        let res = std::panic::catch_unwind(std::panic::AssertUnwindSafe(|| run_prog(&ctx, spin, job.sleep_us, job.logcalls != 0, pre)));
         let res = res.map_err(|_| ());
         log_te(&res, job.p.is_big());
         drop(res);
